@@ -210,13 +210,14 @@ func (bs *BlockStore) SaveBlock(block *types.Block, blockParts *types.PartSet, s
 	// Save new BlockStoreStateJSON descriptor
 	BlockStoreStateJSON{Height: height, OriginHeight: bs.originHeight}.Save(bs.db)
 
+	// Flush first: the writes above are not synced, and readers must not see a height
+	// whose block could still be lost if the process dies now.
+	bs.db.SetSync(nil, nil)
+
 	// Done!
 	bs.mtx.Lock()
 	bs.height = height
 	bs.mtx.Unlock()
-
-	// Flush
-	bs.db.SetSync(nil, nil)
 }
 
 func (bs *BlockStore) SaveBlockToArchive(height int64, block *types.Block, blockParts *types.PartSet, seenCommit *types.Commit) {
